@@ -12,7 +12,7 @@
 EXTENDS SdkModel, IOUtils
 
 Opt(h, t) == [head |-> h, ty |-> t]
-ReservedOpts == {Opt("value", "S"), Opt("value", "I"), Opt("value", "L"), Opt("expireAt", "T"), Opt("createdAt", "T"),
+ReservedOpts == {Opt("value", "S"), Opt("value", "I"), Opt("value", "L"), Opt("value", "T"), Opt("expireAt", "T"), Opt("createdAt", "T"),
                  Opt("createdBy", "S"), Opt("updatedAt", "T"), Opt("updatedBy", "S")}
 SubOpts      == {Opt("keywords", "S"), Opt("keywords", "L"), Opt("monkey", "S"), Opt("values", "S"), Opt("values", "I"),
                  Opt("values", "L"), Opt("createdAtX", "T"), Opt("createdAtX", "S"), Opt("updatedByWho", "S")}
@@ -28,21 +28,22 @@ Bits == {0, 1}
 Extra1 == {<<Fld(a, 2, oa, na)>> : a \in Opts, oa \in Bits, na \in Bits}
 Extra2 == {<<Fld(a, 2, oa, na), Fld(b, 3, ob, nb)>> :
              a \in Opts, b \in Opts, oa \in Bits, ob \in Bits, na \in Bits, nb \in Bits}
-Triples == {t \in {{a, b, c} : a \in Opts, b \in Opts, c \in Opts} : Cardinality({o.head : o \in t}) = 3}
+Triples(unused) == {t \in {{a, b, c} : a \in Opts, b \in Opts, c \in Opts} : Cardinality({o.head : o \in t}) = 3}
 \* the two orders of a triple: any fixed enumeration of it and its reverse
 Seq3(t) == LET a == CHOOSE x \in t : TRUE
                b == CHOOSE x \in t \ {a} : TRUE
                c == CHOOSE x \in t \ {a, b} : TRUE
            IN {<<a, b, c>>, <<c, b, a>>}
-Extra3 == UNION {{<<Fld(s[1], 2, om, n1), Fld(s[2], 3, om, n2), Fld(s[3], 4, om, n3)>> :
-                    s \in Seq3(t), om \in Bits, n1 \in Bits, n2 \in Bits, n3 \in Bits} : t \in Triples}
+\* (an operator with a parameter, so that TLC does not evaluate it when it is not used)
+Extra3(unused) == UNION {{<<Fld(s[1], 2, om, n1), Fld(s[2], 3, om, n2), Fld(s[3], 4, om, n3)>> :
+                    s \in Seq3(t), om \in Bits, n1 \in Bits, n2 \in Bits, n3 \in Bits} : t \in Triples(0)}
 
 WithK3 == "MAXK3" \in DOMAIN IOEnv /\ IOEnv.MAXK3 = "1"
 CatalogModels ==
-  {m \in {<<KeyField>> \o e : e \in {<<>>} \cup Extra1 \cup Extra2 \cup (IF WithK3 THEN Extra3 ELSE {})} : AcceptedCatalog(m)}
+  {m \in {<<KeyField>> \o e : e \in {<<>>} \cup Extra1 \cup Extra2 \cup (IF WithK3 THEN Extra3(0) ELSE {})} : AcceptedCatalog(m)}
 
 \* profile models: any tag head is just a name there
-ProfOpts == {Opt("key", "S"), Opt("value", "I"), Opt("keywords", "L"), Opt("createdAt", "T"), Opt("name", "S")}
+ProfOpts == {Opt("key", "S"), Opt("value", "I"), Opt("keywords", "L"), Opt("createdAt", "T"), Opt("name", "S"), Opt("when", "T")}
 Prof1 == {<<Fld(a, 1, oa, na)>> : a \in ProfOpts, oa \in Bits, na \in Bits}
 Prof2 == {<<Fld(a, 1, oa, na), Fld(b, 2, ob, nb)>> :
             a \in ProfOpts, b \in ProfOpts, oa \in Bits, ob \in Bits, na \in Bits, nb \in Bits}
